@@ -142,34 +142,27 @@ Ltac tagsimp :=
 Lemma to_nat_len_N : forall A (l : list A), N.to_nat (len_N l) = length l.
 Proof. intros. unfold len_N. apply Nat2N.id. Qed.
 
-Lemma RT_alloc : forall c n sz, n * sz <= isize_max -> RT (alloc c n sz) [] tt.
+Lemma RT_alloc : forall c n sz, fitn (c_cap c) sz n = true -> RT (alloc c n sz) [] tt.
 Proof.
-  intros c n sz H rest. unfold run, alloc. cbn [app].
-  set (n' := match c_cap c with Some k => N.min n k | None => n end).
-  assert (n' <= n) by (subst n'; destruct (c_cap c); lia).
-  assert (n' * sz <= n * sz) by (apply N.mul_le_mono_r; auto).
-  replace (isize_max <? n' * sz) with false by (symmetry; apply N.ltb_ge; lia).
+  intros c n sz H rest. unfold fitn in H. apply andb_prop in H. destruct H as [_ H]. apply N.leb_le in H.
+  unfold run, alloc. cbn [app].
+  replace (isize_max <? capn (c_cap c) n * sz) with false by (symmetry; apply N.ltb_ge; lia).
   reflexivity.
 Qed.
 
-Lemma fits_len : forall A sz (l : list A), fits sz l = true -> len_N l * sz <= isize_max.
-Proof. intros. unfold fits in H. apply N.leb_le. exact H. Qed.
+Lemma fitn_u64 : forall cap sz n, fitn cap sz n = true -> u64b n = true.
+Proof. intros cap sz n H. unfold fitn in H. apply andb_prop in H. tauto. Qed.
+Lemma fits_u64 : forall A cap sz (l : list A), fits cap sz l = true -> u64b (len_N l) = true.
+Proof. intros A cap sz l H. eapply fitn_u64. exact H. Qed.
 
 Lemma isize_lt_two64 : isize_max < two64.
 Proof. vm_compute. reflexivity. Qed.
 
-Lemma fits_u64 : forall A sz (l : list A), 1 <= sz -> fits sz l = true -> u64b (len_N l) = true.
-Proof.
-  intros A sz l Hs H. apply fits_len in H. unfold u64b. apply N.ltb_lt.
-  pose proof isize_lt_two64.
-  assert (len_N l * 1 <= len_N l * sz) by (apply N.mul_le_mono_l; auto). lia.
-Qed.
-
-Lemma RT_str : forall c s, strb s = true -> RT (de_str c) (ser_str s) s.
+Lemma RT_str : forall c s, strb (c_cap c) s = true -> RT (de_str c) (ser_str s) s.
 Proof.
   intros c s H. unfold strb in H. bsplit. unfold de_str, ser_str, de_usize, ser_usize.
-  eapply RT_bind. { apply RT_u64. eapply fits_u64; eauto. lia. }
-  eapply RT_bind_eq with (s1 := []); [reflexivity | apply RT_alloc; apply fits_len; auto | ].
+  eapply RT_bind. { apply RT_u64. eapply fits_u64; eauto. }
+  eapply RT_bind_eq with (s1 := []); [reflexivity | apply RT_alloc; auto | ].
   intros rest. unfold run.
   replace (len_N s <=? len_N (s ++ rest)) with true.
   2:{ symmetry. apply N.leb_le. unfold len_N. rewrite app_length. lia. }
@@ -177,7 +170,7 @@ Proof.
   rewrite skipn_app, Nat.sub_diag, skipn_all. reflexivity.
 Qed.
 
-Lemma RT_ident : forall c s, strb s = true -> (c_validate c = true -> identb s = true) ->
+Lemma RT_ident : forall c s, strb (c_cap c) s = true -> (c_validate c = true -> identb s = true) ->
   RT (de_ident c) (ser_str s) s.
 Proof.
   intros c s H Hv. unfold de_ident. eapply RT_bind_nil. apply RT_str; auto.
@@ -229,19 +222,18 @@ Section Num.
 Variable c : cfg.
 Variable asn : list bytes.
 Let sz := c_sz c.
-Hypothesis Hsz : sizes_okb sz = true.
 
 Lemma ser_u64_nonempty : forall x, ser_u64 x <> [].
 Proof. intros x H. apply (f_equal (@length N)) in H. unfold ser_u64 in H. rewrite be_enc_length in H. discriminate. Qed.
 
-Lemma RT_biguint : forall b, wfc_biguint b = true -> (c_validate c = true -> wfs_biguint b = true) ->
+Lemma RT_biguint : forall b, wfc_biguint (c_cap c) b = true -> (c_validate c = true -> wfs_biguint b = true) ->
   RT (de_biguint c) (ser_biguint b) b.
 Proof.
   intros [x|v] H Hv; unfold de_biguint, ser_biguint; cbn [wfc_biguint] in H.
   - apply RT_u8_bind. tagsimp. eapply RT_bind_nil. apply RT_u64; auto. apply RT_ret.
   - bsplit. apply RT_u8_bind. tagsimp. unfold de_usize, ser_usize.
-    eapply RT_bind. { apply RT_u64. eapply fits_u64; eauto. lia. }
-    eapply RT_bind_eq with (s1 := []); [reflexivity | apply RT_alloc; apply fits_len; auto | ].
+    eapply RT_bind. { apply RT_u64. eapply fits_u64; eauto. }
+    eapply RT_bind_eq with (s1 := []); [reflexivity | apply RT_alloc; auto | ].
     eapply RT_bind_nil. { apply RT_list. intros; apply RT_u64. eapply forallb_In; eauto. intros; apply ser_u64_nonempty. }
     replace (c_validate c && (len_N v =? 0)) with false. apply RT_ret.
     symmetry. destruct (c_validate c) eqn:E; auto. specialize (Hv eq_refl). cbn [wfs_biguint] in Hv.
@@ -251,7 +243,7 @@ Qed.
 Lemma RT_sign : forall s, RT de_sign (ser_sign s) s.
 Proof. intros [] rest; reflexivity. Qed.
 
-Lemma RT_bigrat : forall q, wfc_bigrat q = true -> (c_validate c = true -> wfs_bigrat q = true) ->
+Lemma RT_bigrat : forall q, wfc_bigrat (c_cap c) q = true -> (c_validate c = true -> wfs_bigrat q = true) ->
   RT (de_bigrat c) (ser_bigrat q) q.
 Proof.
   intros [s n d] H Hv. unfold wfc_bigrat in H. cbn [r_num r_den] in H. bsplit.
@@ -266,14 +258,14 @@ Proof.
   symmetry. destruct (c_validate c) eqn:E; auto. cbn [andb]. apply Hv'; auto.
 Qed.
 
-Lemma RT_real : forall r, wfc_real r = true -> (c_validate c = true -> wfs_real r = true) ->
+Lemma RT_real : forall r, wfc_real (c_cap c) r = true -> (c_validate c = true -> wfs_real r = true) ->
   RT (de_real c) (ser_real r) r.
 Proof.
   intros [q|q] H Hv; unfold de_real, ser_real; apply RT_u8_bind; tagsimp;
     (eapply RT_bind_nil; [apply RT_bigrat; auto | apply RT_ret]).
 Qed.
 
-Lemma RT_complex : forall z, wfc_complex z = true -> (c_validate c = true -> wfs_complex z = true) ->
+Lemma RT_complex : forall z, wfc_complex (c_cap c) z = true -> (c_validate c = true -> wfs_complex z = true) ->
   RT (de_complex c) (ser_complex z) z.
 Proof.
   intros [a b] H Hv. unfold wfc_complex in H. cbn [c_re c_im] in H. bsplit.
@@ -285,7 +277,7 @@ Proof.
   apply RT_ret.
 Qed.
 
-Lemma RT_part : forall p, wfc_part p = true -> (c_validate c = true -> wfs_part p = true) ->
+Lemma RT_part : forall p, wfc_part (c_cap c) p = true -> (c_validate c = true -> wfs_part p = true) ->
   RT (de_part c) (ser_part p) p.
 Proof.
   intros [a b] H Hv. unfold wfc_part in H. cbn [fst snd] in H. bsplit.
@@ -309,16 +301,15 @@ Proof.
   rewrite app_length, be_enc_length in H. discriminate.
 Qed.
 
-Lemma sz_pos : 1 <= sz_part sz /\ 1 <= sz_uexp sz /\ 1 <= sz_item sz /\ 1 <= sz_bu sz /\ 1 <= sz_var sz.
-Proof. unfold sizes_okb in Hsz. bsplit. repeat split; apply N.leb_le; auto. Qed.
 
-Lemma RT_dist : forall d, forallb wfc_part d = true -> fits (sz_part sz) d = true ->
+
+Lemma RT_dist : forall d, forallb (wfc_part (c_cap c)) d = true -> fits (c_cap c) (sz_part sz) d = true ->
   (c_validate c = true -> forallb wfs_part d = true) ->
   RT (de_dist c) (ser_dist d) d.
 Proof.
   intros d H Hf Hv. unfold de_dist, ser_dist, de_usize, ser_usize.
-  eapply RT_bind. { apply RT_u64. eapply fits_u64; eauto. apply sz_pos. }
-  eapply RT_bind_eq with (s1 := []); [reflexivity | apply RT_alloc; apply fits_len; auto | ].
+  eapply RT_bind. { apply RT_u64. eapply fits_u64; eauto. }
+  eapply RT_bind_eq with (s1 := []); [reflexivity | apply RT_alloc; auto | ].
   apply RT_list. 2: intros; apply ser_part_nonempty.
   intros x Hx. apply RT_part. eapply forallb_In; eauto. intros E. eapply forallb_In; eauto.
 Qed.
@@ -372,9 +363,8 @@ Proof. intros. unfold insert_all. rewrite insert_fold_nodup; auto. Qed.
 Section Num2.
 Variable c : cfg.
 Let sz := c_sz c.
-Hypothesis Hsz : sizes_okb sz = true.
 
-Lemma RT_bu : forall p, wfc_bu p = true -> (c_validate c = true -> wfs_bu p = true) ->
+Lemma RT_bu : forall p, wfc_bu (c_cap c) p = true -> (c_validate c = true -> wfs_bu p = true) ->
   RT (de_bu c) (ser_bu p) p.
 Proof.
   intros [k v] H Hv. unfold wfc_bu in H. cbn [fst snd] in H. bsplit.
@@ -385,7 +375,7 @@ Qed.
 Lemma ser_bu_nonempty : forall p, ser_bu p <> [].
 Proof. intros [k v] H. unfold ser_bu in H. apply app_eq_nil in H. destruct H as [H _]. eapply ser_str_nonempty; eauto. Qed.
 
-Lemma RT_named_unit : forall u, wfc_named_unit sz u = true -> (c_validate c = true -> wfs_named_unit u = true) ->
+Lemma RT_named_unit : forall u, wfc_named_unit (c_cap c) sz u = true -> (c_validate c = true -> wfs_named_unit u = true) ->
   RT (de_named_unit c) (ser_named_unit u) u.
 Proof.
   intros [p s pl a b scale] H Hv. unfold wfc_named_unit in H. cbn [nu_prefix nu_singular nu_plural nu_alias nu_base nu_scale] in H. bsplit.
@@ -397,15 +387,15 @@ Proof.
   eapply RT_bind. apply RT_str; auto.
   eapply RT_bind. apply RT_bool.
   unfold de_usize, ser_usize.
-  eapply RT_bind. { apply RT_u64. eapply fits_u64; eauto. apply (sz_pos c Hsz). }
-  eapply RT_bind_eq with (s1 := []); [reflexivity | apply RT_alloc; apply fits_len; auto | ].
+  eapply RT_bind. { apply RT_u64. eapply fits_u64; eauto. }
+  eapply RT_bind_eq with (s1 := []); [reflexivity | apply RT_alloc; auto | ].
   eapply RT_bind. { apply RT_list. 2: intros; apply ser_bu_nonempty.
     intros x Hx. apply RT_bu. eapply forallb_In; eauto. intros E. eapply forallb_In; eauto. apply Hv'; auto. }
   eapply RT_bind_nil. { apply RT_complex; auto. intros; apply Hv'; auto. }
   rewrite insert_all_nodup by auto. apply RT_ret.
 Qed.
 
-Lemma RT_unit_exp : forall u, wfc_unit_exp sz u = true -> (c_validate c = true -> wfs_unit_exp u = true) ->
+Lemma RT_unit_exp : forall u, wfc_unit_exp (c_cap c) sz u = true -> (c_validate c = true -> wfs_unit_exp u = true) ->
   RT (de_unit_exp c) (ser_unit_exp u) u.
 Proof.
   intros [u e] H Hv. unfold wfc_unit_exp in H. cbn [ue_unit ue_exp] in H. bsplit.
@@ -422,13 +412,13 @@ Proof.
   eapply ser_str_nonempty; eauto.
 Qed.
 
-Lemma RT_unit : forall u, forallb (wfc_unit_exp sz) u = true -> fits (sz_uexp sz) u = true ->
+Lemma RT_unit : forall u, forallb (wfc_unit_exp (c_cap c) sz) u = true -> fits (c_cap c) (sz_uexp sz) u = true ->
   (c_validate c = true -> forallb wfs_unit_exp u = true) ->
   RT (de_unit c) (ser_unit u) u.
 Proof.
   intros u H Hf Hv. unfold de_unit, ser_unit, de_usize, ser_usize.
-  eapply RT_bind. { apply RT_u64. eapply fits_u64; eauto. apply (sz_pos c Hsz). }
-  eapply RT_bind_eq with (s1 := []); [reflexivity | apply RT_alloc; apply fits_len; auto | ].
+  eapply RT_bind. { apply RT_u64. eapply fits_u64; eauto. }
+  eapply RT_bind_eq with (s1 := []); [reflexivity | apply RT_alloc; auto | ].
   apply RT_list. 2: intros; apply ser_unit_exp_nonempty.
   intros x Hx. apply RT_unit_exp. eapply forallb_In; eauto. intros E. eapply forallb_In; eauto.
 Qed.
@@ -448,7 +438,7 @@ Proof.
     unfold de_usize, ser_usize; (eapply RT_bind_nil; [apply RT_u64; auto | apply RT_ret]).
 Qed.
 
-Lemma RT_number : forall n, wfc_number sz n = true -> (c_validate c = true -> wfs_number n = true) ->
+Lemma RT_number : forall n, wfc_number (c_cap c) sz n = true -> (c_validate c = true -> wfs_number n = true) ->
   RT (de_number c) (ser_number n) n.
 Proof.
   intros [v u e b f s] H Hv. unfold wfc_number in H. cbn [n_value n_unit n_exact n_base n_format n_simpl] in H. bsplit.
@@ -544,31 +534,30 @@ Section Tree.
 Variable c : cfg.
 Variable asn : list bytes.
 Let sz := c_sz c.
-Hypothesis Hsz : sizes_okb sz = true.
 
 Definition P_value (v : value) : Prop :=
-  wfc_value asn sz v = true -> names_ok_value (c_from c) v = true ->
+  wfc_value asn (c_cap c) sz v = true -> names_ok_value (c_from c) v = true ->
   (c_validate c = true -> wfs_value v = true) ->
   (c_scope_inverted c = true -> has_scope_value v = false) ->
   forall fuel, (fuel_value v <= fuel)%nat -> RT (de_value c fuel) (ser_value v) v.
 Definition P_expr (e : expr) : Prop :=
-  wfc_expr asn sz e = true -> names_ok_expr (c_from c) e = true ->
+  wfc_expr asn (c_cap c) sz e = true -> names_ok_expr (c_from c) e = true ->
   (c_validate c = true -> wfs_expr e = true) ->
   (c_scope_inverted c = true -> has_scope_expr e = false) ->
   forall fuel, (fuel_expr e <= fuel)%nat -> RT (de_expr c fuel) (ser_expr e) e.
 Definition P_scope (s : scope) : Prop :=
-  wfc_scope asn sz s = true -> names_ok_scope (c_from c) s = true ->
+  wfc_scope asn (c_cap c) sz s = true -> names_ok_scope (c_from c) s = true ->
   (c_validate c = true -> wfs_scope s = true) ->
   c_scope_inverted c = false ->
   forall fuel, (fuel_scope s <= fuel)%nat -> RT (de_scope c fuel) (ser_scope s) s.
 Definition P_oscope (o : oscope) : Prop :=
-  wfc_oscope asn sz o = true -> names_ok_oscope (c_from c) o = true ->
+  wfc_oscope asn (c_cap c) sz o = true -> names_ok_oscope (c_from c) o = true ->
   (c_validate c = true -> wfs_oscope o = true) ->
   forall fuel, (fuel_oscope o <= fuel)%nat ->
   ((c_scope_inverted c = true -> o = ONone) -> RT (opt_scope de_bool (de_scope c fuel)) (ser_oscope o) o) /\
   (c_scope_inverted c = false -> RT (opt_scope (de_flag_scope c) (de_scope c fuel)) (ser_oscope o) o).
 Definition P_items (it : items) : Prop :=
-  wfc_items asn sz it = true -> names_ok_items (c_from c) it = true ->
+  wfc_items asn (c_cap c) sz it = true -> names_ok_items (c_from c) it = true ->
   (c_validate c = true -> wfs_items it = true) ->
   (c_scope_inverted c = true -> has_scope_items it = false) ->
   forall fuel, (fuel_items it <= fuel)%nat -> RT (de_items c fuel (items_len it)) (ser_items it) it.
@@ -608,12 +597,8 @@ Proof.
     intros E. match goal with H : _ -> (match sc with ONone => false | OSome _ => true end) = false |- _ => specialize (H E) end.
     destruct sc; [reflexivity | discriminate].
   - (* VObject *) intros it IH. start_v. unfold de_usize, ser_usize.
-    eapply RT_bind. { apply RT_u64. unfold u64b. apply N.ltb_lt.
-      match goal with H : (items_len it * _ <=? isize_max) = true |- _ => apply N.leb_le in H; revert H end.
-      pose proof isize_lt_two64 as Hi. pose proof (sz_pos c Hsz) as [_ [_ [Hp _]]]. fold sz in Hp. revert Hi Hp.
-      clear. intros Hi Hp H.
-      assert (items_len it * 1 <= items_len it * sz_item sz) by (apply N.mul_le_mono_l; assumption). lia. }
-    eapply RT_bind_eq with (s1 := []); [reflexivity | apply RT_alloc; apply N.leb_le; assumption | ].
+    eapply RT_bind. { apply RT_u64. eapply fitn_u64; eassumption. }
+    eapply RT_bind_eq with (s1 := []); [reflexivity | apply RT_alloc; assumption | ].
     fin. apply IH; try assumption. clear - Hf; lia.
   - start_v. fin. apply RT_str; try assumption.
   - start_v. fin.
@@ -699,15 +684,14 @@ Section Top.
 Variable c : cfg.
 Variable asn : list bytes.
 Let sz := c_sz c.
-Hypothesis Hsz : sizes_okb sz = true.
 
 (* the hypotheses of the round trip, as one boolean *)
 Definition rt_ok_value (v : value) : bool :=
-  wfc_value asn sz v && names_ok_value (c_from c) v &&
+  wfc_value asn (c_cap c) sz v && names_ok_value (c_from c) v &&
   (negb (c_validate c) || wfs_value v) && (negb (c_scope_inverted c) || negb (has_scope_value v)).
 
 Lemma rt_ok_value_elim : forall v, rt_ok_value v = true ->
-  wfc_value asn sz v = true /\ names_ok_value (c_from c) v = true /\
+  wfc_value asn (c_cap c) sz v = true /\ names_ok_value (c_from c) v = true /\
   (c_validate c = true -> wfs_value v = true) /\
   (c_scope_inverted c = true -> has_scope_value v = false).
 Proof.
@@ -720,7 +704,7 @@ Theorem value_roundtrip_fuel : forall v fuel rest, rt_ok_value v = true -> (fuel
   run (de_value c fuel) (ser_value v ++ rest) = Ok (v, rest).
 Proof.
   intros v fuel rest H Hf. apply rt_ok_value_elim in H. destruct H as (H1 & H2 & H3 & H4).
-  destruct (roundtrip_all c asn Hsz) as [Hv _]. apply Hv; auto.
+  destruct (roundtrip_all c asn) as [Hv _]. apply Hv; auto.
 Qed.
 
 Theorem value_roundtrip : forall v rest, rt_ok_value v = true ->
@@ -738,7 +722,7 @@ Fixpoint fuel_vars (m : vars) : nat :=
   match m with [] => 0%nat | (_, v) :: r => S (Nat.max (fuel_value v) (fuel_vars r)) end.
 
 Definition rt_ok_vars (m : vars) : bool :=
-  forallb (fun kv => strb (fst kv) && rt_ok_value (snd kv)) m && fits (sz_var sz) m && nodup_keys m.
+  forallb (fun kv => strb (c_cap c) (fst kv) && rt_ok_value (snd kv)) m && fits (c_cap c) (sz_var sz) m && nodup_keys m.
 
 Lemma de_vars_go_S : forall f n acc, de_vars_go c (S f) n acc =
   if n =? 0 then ret acc
@@ -748,7 +732,7 @@ Lemma de_vars_go_0 : forall f acc, de_vars_go c f 0 acc = ret acc.
 Proof. destruct f; reflexivity. Qed.
 
 Lemma vars_go_roundtrip : forall m fuel acc,
-  forallb (fun kv => strb (fst kv) && rt_ok_value (snd kv)) m = true ->
+  forallb (fun kv => strb (c_cap c) (fst kv) && rt_ok_value (snd kv)) m = true ->
   (fuel_vars m <= fuel)%nat ->
   RT (de_vars_go c fuel (len_N m) acc) (concat (map ser_entry m))
      (fold_left (fun a kv => map_insert (fst kv) (snd kv) a) m acc).
@@ -781,8 +765,8 @@ Proof.
   assert (R : RT (rd n <- de_u64; rd _ <- alloc c n (sz_var (c_sz c));
                   de_vars_go c (length ((ser_u64 (len_N m) ++ concat (map ser_entry m)) ++ rest)) n [])
                (ser_u64 (len_N m) ++ concat (map ser_entry m)) m).
-  { eapply RT_bind. { apply RT_u64. eapply fits_u64; eauto. apply (sz_pos c Hsz). }
-    eapply RT_bind_eq with (s1 := []); [reflexivity | apply RT_alloc; apply fits_len; auto | ].
+  { eapply RT_bind. { apply RT_u64. eapply fits_u64; eauto. }
+    eapply RT_bind_eq with (s1 := []); [reflexivity | apply RT_alloc; auto | ].
     pose proof (vars_go_roundtrip m (length ((ser_u64 (len_N m) ++ concat (map ser_entry m)) ++ rest)) [] H) as G.
     rewrite insert_fold_nodup in G; auto. apply G.
     repeat rewrite app_length. pose proof (fuel_vars_le m). lia. }
